@@ -2,6 +2,8 @@
    Model/TokenFlow.v (call-queue slots); a worker runs at most one task at a time by construction of the worker loop. *)
 From Coq Require Import List Arith Bool.
 From LokyV Require Import Lib.LedgerLib Lib.PoolLib Gen.Ledger Gen.Pool Model.Pool Proofs.PoolThm.
+From LokyV Require Lib.ResizeLib Gen.Resize.
+Module ResizeG := LokyV.Gen.Resize.
 Import ListNotations.
 
 (* every history, resize top-ups from user threads included: never more registered workers than max_workers *)
@@ -25,6 +27,9 @@ Proof. exact registered_job_always_has_a_worker_coming. Qed.
 Print Assumptions C08_registered_job_always_has_a_worker_coming.
 Theorem C08_structure :
   ensure_running_tops_up_then_starts_manager = true /\ spawn_creates_exit_lock_and_starts = true
-  /\ clean_exit_reads_counters_after_the_pop_and_respawns_when_work_waits = true.
+  /\ clean_exit_reads_counters_after_the_pop_and_respawns_when_work_waits = true
+  (* the reusable executor's call queue, created once, is sized from the host (2 * cpu_count() + 1 slots) and not from the number of
+     workers it happens to start with (Gen/Resize.v).  Delivered parallelism is still bounded by that capacity: known finding H19 *)
+  /\ ResizeG.call_queue_is_sized_from_the_host_cpu_count = true.
 Proof. repeat split; reflexivity. Qed.
 Print Assumptions C08_structure.
